@@ -378,6 +378,14 @@ func (t *ncTarget) setCandidate(source TargetSource) (*sdcpb.SetDataResponse, er
 		if strings.Contains(err.Error(), "EOF") {
 			t.Close()
 			go t.reconnect()
+			return nil, err
+		}
+		// the edit is still pending in the candidate, discard it such that
+		// it is not committed along with the next transaction.
+		err2 := t.driver.Discard()
+		if err2 != nil {
+			// log failed discard
+			log.Errorf("failed with %v while discarding pending changes after error %v", err2, err)
 		}
 		return nil, err
 	}
